@@ -105,6 +105,23 @@ PROPS["C08"] = dict(_HTTP_COMMON,
     assumptions=["request bodies are generated in classes whose JSON acceptance is certain", "values are tokens"],
 )
 
+PROPS["C09"] = dict(
+    imports=["Acl.Glob", "Server.KV", "Server.DB", "Server.Http", "Corr.Run_DB", "Corr.Run_Http", "Corr.Run_C09"],
+    case_type="Run_C09.case", check="Run_C09.check", shrink=False,
+    technique="Rocq proof (conditional get = function of the active version: iff / else-active / zero; client status->sentinel map; FileClient function) + differential histories and client probes (DB API, handlers+setec.Client, FileClient) compared in the kernel",
+    level_text=("Machine-checked theorems about the model: for a caller allowed to get, a conditional get with V answers not-modified iff the secret's active version is V at that moment, "
+                "otherwise returns exactly the active version with its bytes (never a non-active one) or not-found; V=0 is the plain get; the state is untouched and an unchanged poll "
+                "writes no record; the network client maps 200/304/404/403 to (value,nil)/ErrValueNotChanged/ErrNotFound/ErrAccessDenied and sends a plain get when V=0; the file "
+                "client implements the same function on its static map. Tied to the code by histories of put/activate/delete interleaved with conditional gets carrying current, older, "
+                "newer, never-existing and zero versions at the DB API, and by probes through the real handlers with setec.Client and through a real FileClient reading a file holding "
+                "the same active versions, all compared with the model in the kernel."),
+    level_note="Trusted: Coq kernel+VM; differential tie is sampled; HTTP transport replaced by an in-process recorder.",
+    rule=("250 DB-API histories (6-30 calls, 45% conditional gets, three callers) + 250 probe sets (12 probes each on a random database: client/file/file-get with V in {current, older, "
+          "newer, never-existing, 0}); a history is non-trivial if it has both a not-modified and a delivered answer, a probe set if the client saw both; distinct by text"),
+    explain="a conditional get (DB API, HTTP client or file client) answered differently from the model",
+    assumptions=["values are tokens"],
+)
+
 # properties not (yet) claimed, with the reason
 NOT_APPLICABLE = {
 }
